@@ -49,6 +49,8 @@ def parse_segs(segs):
             out.append(("C", it[1], it[2], " c "))
         elif k == "K":
             out.append(("C", it[1], it[2], unhex(it[3:])))
+        elif k == "G":
+            out.append(({"v": "V", "b": "B", "c": "C"}[it[1]], it[2], it[3], unhex(it[4:])))
         elif k in "Rr":
             out.append(("R", it[1], it[2], it[3], it[4], unhex(it[5:]), k == "r"))
         else:
@@ -70,6 +72,46 @@ def tag_src(d, it):
 
 def own_start(d, it):
     return {"V": d["vs"], "B": d["bs"], "C": d["cs"], "R": d["bs"]}[it[0]]
+
+
+_ASCII_WS = " \t\n\x0c\r"
+_TOK = re.compile(r"""(?P<ws>[ \t\n\x0c\r]+)|(?P<ident>[A-Za-z_][A-Za-z0-9_]*)|(?P<int>[0-9]+)
+    |(?P<str>'(?:\\[^ux0-7]|[^'\\])*'|"(?:\\[^ux0-7]|[^"\\])*")
+    |(?P<op2>//|\*\*|==|!=|>=|<=)|(?P<op>[-+*/%.,:~|=<>()\[\]{}])""", re.X)
+
+
+def interior_reads_back(e, interior, l, r, following, block):
+    """second opinion on `interiorOk`: the interior is a sequence of blanks, ASCII identifiers, decimal
+    integers, string literals (simple escapes), operators and brackets that the lexer reads token
+    by token; at bracket depth 0 no token starts with the end delimiter or with a marker directly
+    in front of it; brackets are closed at the end; nothing behind an unmarked opening side looks
+    like a marker; a block tag is not `raw`"""
+    src = interior + MK[r] + e + following
+    if l == "_" and (interior + MK[r])[:1] in ("-", "+"):
+        return False
+    if block and src.lstrip(_ASCII_WS).startswith("raw"):
+        return False
+    p, bal, n = 0, 0, len(interior)
+    while p < n:
+        m = _TOK.match(interior, p)
+        if not m:
+            return False
+        kind = m.lastgroup
+        if kind != "ws" and bal == 0:
+            if src.startswith(e, p) or (src[p] in "-+" and src.startswith(e, p + 1)):
+                return False
+        nxt = src[m.end():m.end() + 1]
+        if kind == "ident" and (nxt.isalnum() or nxt == "_" or (nxt and ord(nxt) >= 128)):
+            return False
+        if kind == "int":
+            if nxt.isalnum() or nxt in ("_", ".") or (nxt and ord(nxt) >= 128) or int(m.group()) >= 2 ** 128:
+                return False
+        if kind == "op":
+            if (m.group() + nxt) in ("//", "**", "==", "!=", ">=", "<="):
+                return False
+            bal += {"(": 1, "[": 1, "{": 1, ")": -1, "]": -1, "}": -1}.get(m.group(), 0)
+        p = m.end()
+    return bal == 0
 
 
 def comment_reads_back(d, it):
@@ -187,6 +229,7 @@ def py_free(d, items):
     if d["lc"]:
         starts.append((d["lc"], False))
     src, regions, tags, rs = "", [], [], 0
+    pending = []
     for it in items:
         if it[0] == "T":
             src += it[1]
@@ -197,6 +240,8 @@ def py_free(d, items):
         rs = len(src)
         if it[0] == "C" and not comment_reads_back(d, it):
             return False
+        if it[0] in "VB":
+            pending.append((it, len(src)))
         if it[0] == "R":
             c, bs = it[5], d["bs"]
             if "endraw" in c:
@@ -206,6 +251,10 @@ def py_free(d, items):
                 if probe.startswith(bs, p):
                     return False
     regions.append((rs, len(src)))
+    for it, end in pending:
+        e = d["ve"] if it[0] == "V" else d["be"]
+        if not interior_reads_back(e, it[3], it[1], it[2], src[end:], it[0] == "B"):
+            return False
     for a, b in regions:
         for p in range(a, b):
             for pat, is_ls in starts:
@@ -278,11 +327,18 @@ def line_expect(tlk, nl, lines):
 
 
 def valid_cfg(d):
+    """start delimiters non-empty and pairwise distinct (line prefixes optional), end delimiters non-empty"""
     req = [d["vs"], d["bs"], d["cs"]]
-    if any(x == "" for x in req):
+    if any(x == "" for x in req) or any(d[k] == "" for k in ("ve", "be", "ce")):
         return False
     allp = req + [x for x in (d["ls"], d["lc"]) if x]
     return len(set(allp)) == len(allp)
+
+
+def usable_cfg(d):
+    """block / variable end delimiters that start with ASCII whitespace can never be found (blanks
+    inside a tag are skipped first): such a configuration is accepted, every tag is a syntax error"""
+    return not (d["ve"][:1] in " \t\n\r\x0c" or d["be"][:1] in " \t\n\r\x0c")
 
 
 def run(r):
@@ -396,6 +452,9 @@ def check_lines(r, lines, model, verbose=False):
             if got != spec_py:
                 r.oracle_failure(case, f"lexer produced {got!r}, the whitespace rules give {spec_py!r} (source {src!r})", site)
                 continue
+            if any(it[0] in "VB" and it[3] not in (" v ", "v", " if t ", "if t", " endif ", "endif") for it in items):
+                r.hist["model"]["richer interior: token oracle only"] += 1
+                continue
             nblocks = sum(1 for it in items if it[0] == "B")
             o = fl["out"]
             want = spec_py.replace(VM, "V").replace(BM, "")
@@ -410,6 +469,13 @@ def check_lines(r, lines, model, verbose=False):
             fam = famenc.split(":")[0]
             o, b = fl["out"], fl["base"]
             r.hist["prog"]["base " + b.split(":")[0]] += 1
+            mtok = ml.get("tok", "?")
+            if mtok == "unsupported":
+                r.hist["model"]["unsupported interior"] += 1
+            else:
+                r.hist["model"]["compared"] += 1
+                if mtok != fl["tok"]:
+                    r.model_disagreement(case, fl["tok"], mtok)
             if not b.startswith("ok:"):
                 r.count(None, False)
                 continue
@@ -435,6 +501,18 @@ def check_lines(r, lines, model, verbose=False):
                 r.hist["model"]["compared"] += 1
                 if mtok != fl["tok"]:
                     r.model_disagreement(case, fl["tok"], mtok)
+            if ml.get("srcok") != "1":
+                r.broken.append(f"line stream: Lean's unparse of the line template differs from the harness source on {case}")
+            elif ml.get("free") == "1":
+                # an instance of lex_eq_spec with line statements / comments as tags
+                r.hist["theorem"]["line stream: instances of lex_eq_spec (line prefixes)"] += 1
+                spec_lean = unhex(ml["spec"])
+                if render_tok(mtok) != spec_lean:
+                    r.broken.append(f"compiled model contradicts lex_eq_spec on {case}")
+                if spec_lean.replace(VM, "V").replace(BM, "") != want:
+                    r.broken.append(f"Lean specRender and the Python expectation disagree on {case}: {spec_lean!r} vs {want!r}")
+            else:
+                r.hist["theorem"]["line stream: outside the hypotheses"] += 1
             if not e.startswith("ok:") or unhex(e[3:]) != want:
                 r.broken.append(f"line stream: the equivalent tag form does not render the expected text on {case}: {e} vs {want!r}")
                 continue
@@ -447,11 +525,18 @@ def check_lines(r, lines, model, verbose=False):
             r.count(case, True)
             ok = valid_cfg(d)
             b = fl["build"]
-            r.hist["cfg"][("valid" if ok else "invalid") + " -> " + b] += 1
-            if ok and (b != "ok" or fl.get("probe") != "ok"):
+            r.hist["cfg"][("valid" if ok else "invalid") + " -> " + b + (" render " + fl["render"].split(":")[0] if "render" in fl else "")] += 1
+            if not ok:
+                if b != "err:InvalidDelimiter":
+                    r.oracle_failure(case, f"invalid delimiter set {fam} is not rejected: build={b}", f"cfg/{fam}")
+                continue
+            want = "ok:" + "a V b c d".encode().hex()
+            if b != "ok" or fl.get("probe") != "ok":
                 r.oracle_failure(case, f"valid delimiter set {fam} gives build={b} probe={fl.get('probe')}", f"cfg/{fam}")
-            if not ok and b != "err:InvalidDelimiter":
-                r.oracle_failure(case, f"invalid delimiter set {fam} is not rejected: build={b}", f"cfg/{fam}")
+            elif usable_cfg(d) and fl.get("render") != want:
+                r.oracle_failure(case, f"valid delimiter set {fam} renders the probe as {fl.get('render')}", f"cfg/{fam}/render")
+            elif not usable_cfg(d) and fl.get("render") != want and not fl.get("render", "").startswith("err:"):
+                r.oracle_failure(case, f"delimiter set {fam} with an unreachable end delimiter neither renders the probe nor fails: {fl.get('render')}", f"cfg/{fam}/render")
     r.extra["lean_vs_python_spec_disagreements"] = r.extra.get("lean_vs_python_spec_disagreements", 0) + n_spec_bad
 
 
